@@ -11,11 +11,11 @@ CONSTANTS
   Cat <- CatMC
   Txns = {1}
   RestoreWrongDirection = FALSE
-  PublishBeforeInit = TRUE
+  PublishBeforeInit = FALSE
   ContinueAfter405 = FALSE
   ApplyNoBackup = FALSE
   NoReloadAfterRestore = FALSE
   MetricsToDefaultPath = FALSE
 SPECIFICATION SpecMC
-INVARIANTS DiskAtomic BehavAtomic NeverHalf OneConfig
+INVARIANT WitnessFailedNotExempt
 CHECK_DEADLOCK FALSE
